@@ -139,6 +139,7 @@ type genOpts struct {
 	kind                        int  // 0: forward or return cash letters at random, 1: forward only, 2: return only
 	zones                       bool // date members carry a non-UTC zone and a time of day that crosses midnight in UTC
 	mutateP                     int  // percent of fields varied
+	alphaSeq                    bool // some items carry a caller-supplied item sequence number that is not a number (institution keys such as "A0012X7")
 	fileBundles                 bool // the file's own Bundles member (JSON "bundle", outside any cash letter, never written) holds bundles too
 	unbuilt                     bool // after building, members the build step derives are set to other valid values (record numbers out of order, control records swapped between bundles): a file as a caller may assemble it without building
 }
@@ -284,6 +285,9 @@ func genCheck(r rng, o genOpts) *icl.CheckDetail {
 	mutateRecord(r, "CheckDetail", cd, o.mutateP)
 	cd.ItemAmount = 1 + r.Intn(999999)
 	cd.EceInstitutionItemSequenceNumber = ""
+	if o.alphaSeq && r.Intn(3) == 0 {
+		cd.EceInstitutionItemSequenceNumber = []string{"A0012X7", "RT-77/B", "K9", "00X1"}[r.Intn(4)]
+	}
 	nA, nB, nC := r.Intn(3), r.Intn(2), r.Intn(3)
 	if r.Intn(12) == 0 {
 		nA, nC = 9, 4
@@ -337,6 +341,9 @@ func genReturn(r rng, o genOpts) *icl.ReturnDetail {
 	mutateRecord(r, "ReturnDetail", rd, o.mutateP)
 	rd.ItemAmount = 1 + r.Intn(999999)
 	rd.EceInstitutionItemSequenceNumber = ""
+	if o.alphaSeq && r.Intn(3) == 0 {
+		rd.EceInstitutionItemSequenceNumber = []string{"A0012X7", "RT-77/B", "K9", "00X1"}[r.Intn(4)]
+	}
 	nA, nB, nC, nD := r.Intn(3), r.Intn(2), r.Intn(2), r.Intn(3)
 	for i := 0; i < nA; i++ {
 		a := baseReturnDetailAddendumA()
